@@ -269,7 +269,7 @@ def c20(tier, repo=None):
                 dict(fam="flow", adds=1, post=1), dict(fam="chain", adds=2, post=2), dict(fam="cyc", adds=3, post=0, br=2),
                 dict(fam="seqs", adds=2, post=1, simulate="num=240", depth=50, limit=5000),
                 dict(fam="seq", adds=4, post=2, aftererr=2, simulate="num=320", depth=70, limit=8000)]
-        limit = 40000
+        limit = 60000
     else:
         models = [("seq", 2, 0, ["AllOutcome", "FrozenMaps"]), ("seqp", 2, 0, ["AllOutcome", "FrozenMaps"]), ("seqs", 1, 1, ["AllOutcome", "FrozenMaps"]),
                   ("wf", 0, 3, ["AllOutcome", "FrozenMaps"]), ("wfin", 4, 1, ["AllOutcome", "FrozenMaps"]), ("flow", 2, 1, ["AllOutcome", "FrozenMaps"]),
@@ -281,7 +281,7 @@ def c20(tier, repo=None):
                 dict(fam="seqs", adds=3, post=1, aftererr=2, simulate="num=2500", depth=60),
                 dict(fam="seqp", adds=4, post=2, aftererr=2, br=2, simulate="num=3000", depth=80),
                 dict(fam="seq", adds=5, post=2, aftererr=2, br=2, simulate="num=4000", depth=80)]
-        limit = 400000
+        limit = 600000
     return run_build_check("C20", tier, models=models, probes=probes, families=fams, limit=limit, nontrivial=_violation_or_post, repo=repo,
                            assumptions=[
                                "'the first error sticks' is read for Add* errors: a failed Compile (missing entry, cycle ...) is not recorded by the "
